@@ -368,7 +368,8 @@ TRunSummary ==
     /\ e.nrc <= ReceiptLimit
     /\ (Has(e, "rc_all") => (Len(e.rc_all) = e.nrc /\ e.receipts_root = MT!MTH(e.rc_all)))   \* C09 / C28: the committed root also at the limit
     /\ Len(e.tail) = 2 /\ e.tail[2].kind = "ScriptResult"
-    /\ IF e.loops + 2 <= ReceiptLimit
+    \* the last two slots are reserved for the ending (Panic, ScriptResult): the Return receipt must land below them (RcptPan)
+    /\ IF e.loops + 3 <= ReceiptLimit
        THEN e.logs = e.loops /\ e.nrc = e.loops + 2 /\ e.tail[1].kind = "Return" /\ e.tail[2].result = "Success"
        ELSE e.tail[1].kind = "Panic" /\ e.tail[1].reason = "TooManyReceipts" /\ e.tail[2].result = "Panic" /\ e.logs = e.nrc - 2
     /\ UNCHANGED vm
